@@ -242,7 +242,7 @@ def sample(W, items, n):
 
 
 def export(W, name, **over):
-    out, viol = W.tlc_exhaustive("AuthFlowScn", scn_cfg(**over), name, workers=1)
+    out, viol = W.tlc_exhaustive("AuthFlowScn", scn_cfg(**over), name, workers=12, timeout=3000)
     ms = W.scenarios_from(out)
     # a failing token endpoint comes in two renderings: HTTP 500, and a connection closed without an answer
     res = []
@@ -395,6 +395,9 @@ def c09(W, replay=None):
                 ms = export(W, "c09-%s-%s-%s" % (prep, "-".join("%s%d" % kv for kv in kw.items()), stname), Prepared='"%s"' % prep, Target=1, MaxLogouts=1,
                             MaxInFlight=infl, Checks="{1,2,3,4,5,6}", MaxSid=4, MaxTok=5, TokLife=1, Kinds='{"app","callback","logout"}',
                             ClearAbsentFails="TRUE" if stname == "redis" else "FALSE", **kw)
+                if len(ms) > 2500:
+                    log("[gen] %d schedules enumerated, a seeded sample of 2500 is replayed" % len(ms))
+                    ms = sample(W, ms, 2500)
                 for i, m in enumerate(ms):
                     scen.append(conv(m, "c09/%s/%s/%s/%d" % (stname, prep, "-".join(kw), i), 1, store=stname,
                                      filters=[F1 if i % 2 == 0 else dict(F1, prefix="tenant-7")],
